@@ -504,7 +504,24 @@ func runC08(k int, rng *Rng) CaseResult {
 		}
 	}
 	if mode == "first-access-storm" {
-		// close, reopen: every client's first call hits the lazy schema load
+		// two more collections on the handle, then close, reopen: every client's first call on a
+		// collection hits its lazy schema load, while others already use the handle's schemas
+		// (Control walks all of them)
+		osch := sod.DefaultSchema
+		osch.Cache = cfg.Cache
+		for _, o := range []sod.Object{&Other{A: 1, B: "b1"}, &Tagged{Name: "n1", Code: "c", Num: 1}} {
+			var e error
+			o := o
+			w.call("Create(other collection)", func() {
+				if e = w.db.Create(o, osch); e == nil {
+					e = w.db.InsertOrUpdate(o)
+				}
+			})
+			if e != nil {
+				w.fail("create-failed", "Create(other collection)", "-", e.Error())
+				return w.finish(nil, false, nil)
+			}
+		}
 		w.Reopen(false)
 	}
 	nClients := 3 + rng.Intn(4)
@@ -534,6 +551,24 @@ func runC08(k int, rng *Rng) CaseResult {
 			<-start
 			r := c.rng
 			for i := 0; i < nOps; i++ {
+				if mode == "first-access-storm" && r.P(0.45) {
+					// whole-handle and other-collection calls: results are not part of the
+					// history, the race detector and the panic guard watch them
+					func() {
+						defer func() { recover() }()
+						switch r.Intn(5) {
+						case 0, 1:
+							w.db.Control()
+						case 2:
+							w.db.Count(&Other{})
+						case 3:
+							w.db.Search(&Tagged{}, "Num", ">=", 0).Len()
+						default:
+							w.db.All(&Other{})
+						}
+					}()
+					continue
+				}
 				if mode == "compound" && r.P(0.5) {
 					if e := c.compound(w.db, &written); e != "" {
 						compoundErr.Store(e)
